@@ -1476,6 +1476,43 @@ fn boundary_cases(ses: &mut Session, sut: &mut S, optin: &str) {
         step(ses, sut, "surface");
         ses.end_case();
 
+        // ---- D. the start instant: start−1 ns / start / start+1 ns, each: UpdateStartTime(future), then a raise attempt.
+        // "Once the mint has started" is sticky in the monitors: an accepted UpdateStartTime at `now = start` must not
+        // make a later raise legitimate (the public mint at that very instant shows the mint IS open).
+        {
+            let s2 = s + HOUR;
+            ses.begin_case(sut, &format!("case kind={k} now={t0} fd=0 fmin=5000 air=7 bps=1000 corpus=startedge{optin}"));
+            step(ses, sut, &format!("create by=10 d=0 p=100000 s={s} e={es} cap=1 wl=-"));
+            let edge = |ses: &mut Session, what: &str, out: &str| {
+                ses.mark(format!("bnd:{k}:{what}:{}", match tag_of(out) { "ok" => "accepted", "err" => "refused", x => x }))
+            };
+            step(ses, sut, &format!("t now={}", s - 1));
+            let o = step(ses, sut, "mint buyer=24 funds=0:100000");
+            edge(ses, "mint@start-1", &o);
+            let o = step(ses, sut, &format!("ust by=10 paid=0 t={s2}"));
+            edge(ses, "ust@start-1", &o);
+            let o = step(ses, sut, "ump by=10 paid=0 p=100001");
+            edge(ses, "raise@start-1", &o);
+            step(ses, sut, "probe");
+            step(ses, sut, &format!("t now={s2}"));
+            let o = step(ses, sut, "mint buyer=24 funds=0:100001");
+            edge(ses, "mint@start", &o);
+            let o = step(ses, sut, &format!("ust by=10 paid=0 t={}", s2 + HOUR));
+            edge(ses, "ust@start", &o);
+            let o = step(ses, sut, "ump by=10 paid=0 p=100002");
+            edge(ses, "raise@start", &o);
+            step(ses, sut, "probe");
+            step(ses, sut, &format!("t now={}", s2 + 1));
+            let o = step(ses, sut, &format!("ust by=10 paid=0 t={}", s2 + HOUR));
+            edge(ses, "ust@start+1", &o);
+            let o = step(ses, sut, "ump by=10 paid=0 p=100002");
+            edge(ses, "raise@start+1", &o);
+            let o = step(ses, sut, "mint buyer=25 funds=0:100001");
+            edge(ses, "mint@start+1", &o);
+            step(ses, sut, "probe");
+            ses.end_case();
+        }
+
         // ---- C. discounts (vending only): start, 12 h, 1 h, each −1 ns / sharp; fix 100f319
         if !oe {
             ses.begin_case(sut, &format!("case kind={k} now={t0} fd=0 fmin=50 air=0 bps=1000 corpus=fc07{optin}"));
@@ -1579,6 +1616,12 @@ fn main() {
             "mint:wl-price:ok", "mint:wl-active-public-price:err", "mint:public:ok", "mint:public-1:err", "migrate:older:ok", "migrate:newer:err",
             "swl:tiered:ok", "tier:s1-1:cur=0:100000,lo=0,eq=0", "tier:s1:cur=0:7000,lo=0,eq=1", "tier:s1end:cur=0:7000,lo=0,eq=1", "tier:s1end+1:cur=0:6000,lo=0,eq=1",
             "tier:s2end:cur=0:5000,lo=0,eq=1", "tier:s2end+1:cur=0:100000,lo=0,eq=0", "mint:tier-s1:ok", "mint:tier-s2:ok", "tier:repriced:cur=0:5000,lo=0,eq=1",
+        ] {
+            ses.require(format!("bnd:{k}:{c}"));
+        }
+        for c in [
+            "mint@start-1:refused", "ust@start-1:accepted", "raise@start-1:accepted", "mint@start:accepted", "ust@start:refused", "raise@start:refused",
+            "ust@start+1:refused", "raise@start+1:refused", "mint@start+1:accepted",
         ] {
             ses.require(format!("bnd:{k}:{c}"));
         }
@@ -1755,6 +1798,7 @@ fn main() {
             let target: Option<u64> = match opk {
                 "udp" if !before_start => last.map(|l| (l + H12).max(st)),
                 "rdp" if !before_start => last.map(|l| l + HOUR),
+                "ust" if st >= g.now => Some(st),
                 _ => None,
             };
             let t = if let (Some(x), true) = (target, rng.chance(3, 5)) {
